@@ -20,8 +20,8 @@ import random
 
 ID = "C01"
 DRIVER = "drv_c01"
-LEAN_TARGETS = ["PharmpyProofs.C01.Properties", "PharmpyProofs.C01.PropertiesAdvan", "PharmpyProofs.C01.PropertiesOmega", "PharmpyProofs.C01.PropertiesDes", "PharmpyProofs.C01.PropertiesRates", "drv_c01"]
-PROPERTIES = ["PharmpyProofs/C01/Properties.lean", "PharmpyProofs/C01/PropertiesAdvan.lean", "PharmpyProofs/C01/PropertiesOmega.lean", "PharmpyProofs/C01/PropertiesDes.lean", "PharmpyProofs/C01/PropertiesRates.lean"]
+LEAN_TARGETS = ["PharmpyProofs.C01.Properties", "PharmpyProofs.C01.PropertiesAdvan", "PharmpyProofs.C01.PropertiesOmega", "PharmpyProofs.C01.PropertiesDes", "PharmpyProofs.C01.PropertiesRates", "PharmpyProofs.C01.PropertiesTheta", "drv_c01"]
+PROPERTIES = ["PharmpyProofs/C01/Properties.lean", "PharmpyProofs/C01/PropertiesAdvan.lean", "PharmpyProofs/C01/PropertiesOmega.lean", "PharmpyProofs/C01/PropertiesDes.lean", "PharmpyProofs/C01/PropertiesRates.lean", "PharmpyProofs/C01/PropertiesTheta.lean"]
 LEAN_SOURCES = ["PharmpyModel/C01/*.lean", "PharmpyModel/Generated/Advan.lean", "PharmpyProofs/C01/*.lean", "Drivers/C01.lean"]
 TIME_LIMIT = {"quick": 900, "thorough": 3000}
 CASE_CPU_LIMIT = 60
@@ -30,7 +30,7 @@ RULE = ("grammar-directed abbreviated-code programs (3-10 top-level statements o
         "assignments per branch, nested logical/block IFs; half of them generated inside the Safe fragment) rendered "
         "with random operator spellings (.GT./>), keyword case, redundant parentheses and comments, in $PRED or split "
         "over $PK/$ERROR (ADVAN1 TRANS2), read with read_model_from_string; every (ADVAN,TRANS) entry of the PREDPP table; "
-        "$THETA forms init / (low,init) / (low,init,up) / (..)xn. non-trivial = program with at least one IF, or an "
+        "$THETA forms init / (low,init) / (low,init,up) / (..)xn over 1-4 records, with 0-3 trailing comments per item (named, numeric, empty; NM-TRAN ignores them, pharmpy names parameters from them) and a comment before the first item. non-trivial = program with at least one IF, or an "
         "ADVAN/TRANS entry, or a $THETA record with a repeat; distinct = distinct case JSON")
 TRUSTED = [
     "Lean 4.33 kernel; axioms propext, Quot.sound, Classical.choice only (audited per theorem each run)",
@@ -328,6 +328,24 @@ def corpus_cases():
         # Fortran D exponent in $THETA
         {"kind": "thetas", "items": [{"form": "init", "init": ["2", "2"], "low": "0", "up": "20", "n": 2, "fixpos": "none", "fixkw": "FIX", "sep": ",", "infkw": "INF"}],
          "split": False, "dexp": True, "seed": 37},
+        # repeated form `(low,init,up)xn` with a trailing comment, further commented records (seed C01f); several comments on one item
+        {"kind": "thetas", "items": [
+            {"form": "low-init-up-xn", "init": ["0.5", ".5"], "low": "0", "up": "1", "n": 2, "fixpos": "none", "fixkw": "FIX", "sep": ",", "infkw": "INF",
+             "comments": [["name", "fractions", ""]]},
+            {"form": "low-init-up", "init": ["2.5", "2.5"], "low": "-2", "up": "20", "n": 2, "fixpos": "none", "fixkw": "FIX", "sep": ",", "infkw": "INF",
+             "comments": [["name", "slope", ""]]},
+            {"form": "low-init", "init": ["7", "7"], "low": "0", "up": "20", "n": 2, "fixpos": "none", "fixkw": "FIX", "sep": ",", "infkw": "INF",
+             "comments": [["name", "baseline", ""]]}],
+         "split": False, "breaks": [1, 2], "dexp": False, "seed": 38},
+        {"kind": "thetas", "items": [
+            {"form": "init-xn", "init": ["1", "1"], "low": "0", "up": "20", "n": 3, "fixpos": "none", "fixkw": "FIX", "sep": ",", "infkw": "INF",
+             "comments": [["name", "CL", " (L/h)"], ["name", "V", ""]]},
+            {"form": "init", "init": ["2.5", "2.5"], "low": "0", "up": "20", "n": 2, "fixpos": "none", "fixkw": "FIX", "sep": ",", "infkw": "INF",
+             "comments": [["num", "1st"]]},
+            {"form": "init", "init": ["3", "3."], "low": "0", "up": "20", "n": 2, "fixpos": "none", "fixkw": "FIX", "sep": ",", "infkw": "INF", "comments": []},
+            {"form": "init-xn", "init": ["7", "7"], "low": "0", "up": "20", "n": 2, "fixpos": "none", "fixkw": "FIX", "sep": ",", "infkw": "INF",
+             "comments": [["empty"]]}],
+         "split": False, "precomment": True, "dexp": False, "seed": 39},
         # commas between initial estimates
         {"kind": "omega", "comma": True, "omega": [blk(2, ["0.3", "0.01", "0.5"])], "sigma": one, "seed": 36},
         # BLOCK(n) VALUES(diag, odiag)
@@ -362,6 +380,25 @@ def shrink(case):
                     continue
                 c = dict(case)
                 c[key] = case[key][:i] + case[key][i + 1:]
+                yield c
+        return
+    if case.get("kind") == "thetas":
+        items = case["items"]
+        for i in range(len(items)):
+            if len(items) > 1:
+                c = dict(case)
+                c["items"] = items[:i] + items[i + 1:]
+                c.pop("breaks", None)
+                yield c
+        for key in ("breaks", "precomment"):
+            if case.get(key):
+                c = dict(case)
+                c.pop(key)
+                yield c
+        for i, it in enumerate(items):
+            for j in range(len(it.get("comments", []))):
+                c = dict(case)
+                c["items"] = items[:i] + [dict(it, comments=it["comments"][:j] + it["comments"][j + 1:])] + items[i + 1:]
                 yield c
         return
     if case.get("kind") != "prog":
@@ -1640,13 +1677,56 @@ def g_thetas_case(rng, seed):
         items.append({"form": form, "init": list(init), "low": rng.choice(["-2", "0", "-0.5", "0.001"]), "up": rng.choice(["20", "100", "1E2", "50.5"]),
                       "n": rng.randint(2, 4), "fixpos": fixpos, "fixkw": rng.choice(KW["fix"]), "sep": rng.choice([",", ", ", " "]),
                       "infkw": rng.choice(["INF", "inf", "1000000"])})
-    return {"kind": "thetas", "items": items, "split": rng.random() < 0.3, "dexp": False, "seed": seed}
+    case = {"kind": "thetas", "items": items, "split": rng.random() < 0.3, "dexp": False, "seed": seed}
+    g_theta_comments(case)
+    return case
+
+
+TH_COMMENT_NAMES = ["CL", "V", "TVCL", "TVV", "KA", "fractions", "slope", "baseline", "POP_CL", "theta1", "MAT", "Y", "TIME", "ETA_1", "THETA_2"]
+
+
+def g_theta_comments(case):
+    """Comments of the $THETA items (NM-TRAN ignores them; pharmpy takes parameter names from them) and 0-2 further items in the
+    repeated form.  All choices come from a generator derived from the case's own seed, so the other case kinds of a run are the
+    ones they were before comments were generated.  A comment is ["name", NAME, tail] (`; NAME tail`), ["num", text] (`; 2.5 text`:
+    no identifier directly after the semicolon) or ["empty"] (`;`)."""
+    r = random.Random(case["seed"] ^ 0xC01F)
+    items = case["items"]
+    for _ in range(r.choice([0, 0, 1, 1, 2])):
+        form = r.choice(["init-xn", "low-init-up-xn"])
+        items.insert(r.randint(0, len(items)), {
+            "form": form, "init": list(r.choice(TH_NUM)), "low": r.choice(["-2", "0", "-0.5", "0.001"]), "up": r.choice(["20", "100", "50.5"]),
+            "n": r.randint(2, 5), "fixpos": "inside" if (form == "init-xn" and r.random() < 0.3) else "none", "fixkw": r.choice(KW["fix"]),
+            "sep": r.choice([",", ", "]), "infkw": "INF"})
+
+    def one():
+        q = r.random()
+        if q < 0.7:
+            return ["name", r.choice(TH_COMMENT_NAMES), r.choice(["", "", " (L/h)", " ; typical value", "=pop value", " 1"])]
+        if q < 0.85:
+            return ["num", r.choice(["1", "2.5 units", "(fixed) CL", "- CL", "1st"])]
+        return ["empty"]
+    if r.random() < 0.85:
+        for it in items:
+            q = r.random()
+            it["comments"] = [] if q < 0.35 else [one()] if q < 0.85 else [one() for _ in range(r.randint(2, 3))]
+        case["precomment"] = r.random() < 0.2
+        if len(items) > 2 and r.random() < 0.3:       # more than two records
+            case["breaks"] = sorted(r.sample(range(1, len(items)), r.randint(1, min(3, len(items) - 1))))
+
+
+def r_theta_comment(c):
+    if c[0] == "name":
+        return f"; {c[1]}{c[2]}", c[1]
+    if c[0] == "num":
+        return f"; {c[1]}", None
+    return ";", None
 
 
 def run_thetas(case, drv):
     k, mon, tags = [], [], []
     inf = float("inf")
-    parts, want = [], []
+    parts, want, item_reps, want_of_item = [], [], [], []
     for it in case["items"]:
         v, sp = it["init"]
         f = it["form"]
@@ -1683,25 +1763,78 @@ def run_thetas(case, drv):
             raise ValueError(f)
         tags.append(f"theta:{f}" + ("+fix" if it["fixpos"] != "none" else ""))
         parts.append(s)
+        item_reps.append(reps)
+        want_of_item.append((float(Fraction(v)), b[0], b[1], fixed))
         want += [(float(Fraction(v)), b[0], b[1], fixed)] * reps
+    comments = [list(it.get("comments", [])) for it in case["items"]]
+    mult = list(item_reps)
     if case.get("dexp"):
         parts.append("1D1")
+        comments.append([])
+        mult.append(1)
+        want_of_item.append((10.0, -inf, inf, False))
         want.append((10.0, -inf, inf, False))
-    if case["split"] and len(parts) > 1:
-        h = len(parts) // 2
-        th = "$THETA " + " ".join(parts[:h]) + "\n$THETA " + "\n ".join(parts[h:])
+    if case.get("breaks"):
+        starts = [0] + [b for b in case["breaks"] if 0 < b < len(parts)]
+    elif case["split"] and len(parts) > 1:
+        starts = [0, len(parts) // 2]
     else:
-        th = "$THETA " + " ".join(parts)
-    text = f"$PROBLEM c01\n$INPUT ID TIME DV\n$DATA c01.csv IGNORE=@\n$PRED\nY = THETA(1) + ETA(1) + EPS(1)\n{th}\n$OMEGA 0.1\n$SIGMA 1\n$ESTIMATION METHOD=1\n"
+        starts = [0]
+    # records: the items of each record, the text, and what tree_walk() shows of it (theta subtrees / COMMENT tokens, in order)
+    recs, th = [], ""
+    for ri, a in enumerate(starts):
+        b = starts[ri + 1] if ri + 1 < len(starts) else len(parts)
+        line, evs, items_w, nl = "$THETA", [], [], False
+        if ri == 0 and case.get("precomment"):
+            line += " ; initial estimates\n"
+            evs.append(["c", "initial"])
+            nl = True
+        for i in range(a, b):
+            # layout: one line per record, except after a comment and (as before) one item per line in the second of two records
+            line += ("\n " if (not nl and i > a and ri > 0 and not case.get("breaks")) else " ") + parts[i]
+            nl = False
+            evs.append(["t", mult[i]])
+            items_w.append([i, mult[i]])
+            for c in comments[i]:
+                txt, nme = r_theta_comment(c)
+                line += " " + txt + "\n"
+                nl = True
+                evs.append(["c", nme] if nme is not None else ["c"])
+                tags.append("theta-comment:" + c[0] + (":xn" if mult[i] > 1 else ""))
+        th += line + ("" if nl else "\n")
+        recs.append((items_w, evs))
+    th = th.rstrip("\n")
+    tags.append(f"theta-records:{len(recs)}")
+    nth = sum(mult)
+    ysum = " + ".join(f"THETA({i + 1})" for i in range(nth)) if any(comments) else "THETA(1)"
+    text = f"$PROBLEM c01\n$INPUT ID TIME DV\n$DATA c01.csv IGNORE=@\n$PRED\nY = {ysum} + ETA(1) + EPS(1)\n{th}\n$OMEGA 0.1\n$SIGMA 1\n$ESTIMATION METHOD=1\n"
     try:
         model = read_model_from_string(text)
     except Exception as e:
         mon.append({"cls": "theta-record-rejected", "what": f"`{th}` raises {type(e).__name__}: {str(e).splitlines()[0][:120]}"})
         return {"k": k, "mon": mon, "tags": tags, "nontrivial": True}
-    got = [(float(p.init), float(p.lower), float(p.upper), bool(p.fix)) for p in model.parameters if p.name.startswith("THETA")]
+    rvp = set(model.random_variables.parameter_names)
+    got = [(float(p.init), float(p.lower), float(p.upper), bool(p.fix)) for p in model.parameters if p.name not in rvp]
+    # ---- K (i): comment_names of every $THETA record and the theta parameters of the model object vs the Lean model
+    if drv is not None:
+        ans = drv.ask(["thetas"] + [[iw, ev] for iw, ev in recs])
+        lean_names = [[None if x == "~" else x for x in l] for l in ans[0][1:]]
+        code_names = [list(r.comment_names) for r in model.internals.control_stream.get_records("THETA")]
+        if lean_names != code_names:
+            k.append(f"comment_names: model {lean_names}, code {code_names} for `{th}`")
+        lean_params = ans[1][1]
+        if lean_params == "err":
+            k.append(f"theta parameters: model raises IndexError, code reads {len(got)} thetas for `{th}`")
+        else:
+            lean_got = [want_of_item[int(i)] for i in lean_params]
+            if lean_got != got and not case.get("dexp"):
+                k.append(f"theta parameters: model {lean_got}, code {got} for `{th}`")
     if got != want:
-        cls = "theta-fortran-d-exponent" if (case.get("dexp") and got[:-1] == want[:-1]) else "theta-values"
-        mon.append({"cls": cls, "what": f"`{th}` read as {got}, documented meaning {want}"})
+        if len(got) != len(want) and not case.get("dexp"):
+            cls = "theta-count"
+        else:
+            cls = "theta-fortran-d-exponent" if (case.get("dexp") and got[:-1] == want[:-1]) else "theta-values"
+        mon.append({"cls": cls, "what": f"`{th}` declares {len(want)} THETAs, the model object has {len(got)}: read as {got}, documented meaning {want}"})
     return {"k": k, "mon": mon, "tags": tags, "nontrivial": len(want) > 1}
 
 
